@@ -445,6 +445,11 @@ func (t *Tree) AddPush()    { t.addFix(TypePush) }
 
 func (t *Tree) AddPeg(text string) { t.PushFront(&node{Type: TypePeg, string: text}) }
 
+// commentSafe keeps Go code quoted inside a generated /* */ comment from ending it.
+func commentSafe(code string) string {
+	return strings.ReplaceAll(code, "*/", "* /")
+}
+
 func escape(c string) string {
 	switch c {
 	case "'":
@@ -957,11 +962,11 @@ func (t *Tree) Compile(file string, args []string, out io.Writer) (err error) {
 			upper := element
 			_print("[%v-%v]", escape(lower.String()), escape(upper.String()))
 		case TypePredicate:
-			_print("&{%v}", n)
+			_print("&{%v}", commentSafe(n.String()))
 		case TypeStateChange:
-			_print("!{%v}", n)
+			_print("!{%v}", commentSafe(n.String()))
 		case TypeAction:
-			_print("{%v}", n)
+			_print("{%v}", commentSafe(n.String()))
 		case TypeCommit:
 			_print("commit")
 		case TypeAlternate:
